@@ -577,6 +577,44 @@ func rulesC12(c *Ctx) {
 		c.Check(okMeta && len(pv) == 1 && smg.Dominates(pv[0], first), "client:version-header-mirrors-meta", sm, nil, "the version header is taken from the message's _meta.protocolVersion first (so header and body agree)")
 	})
 
+	c.Rule("R-C12-9", "the client finds the definition of the tool it is about to call in any cached tools/list page: lookupTool filters the cached definitions by name and by nothing else (a definition skipped here means no Mcp-Param-* headers, which the server refuses)", func() {
+		lt := c.Fn(pM, "ClientSession", "lookupTool")
+		g := lt.Graph()
+		nameP := lt.ParamWhere(func(t types.Type) bool { b, ok := t.Underlying().(*types.Basic); return ok && b.Kind() == types.String })
+		c.Need(nameP != nil, "lookupTool: name parameter")
+		nameF := c.Field(pM, "Tool", "Name")
+		n := 0
+		for _, r := range lt.Returns() {
+			if len(r.Results) != 1 || isNilIdent(r.Results[0]) {
+				continue
+			}
+			n++
+			v := g.VertexOf(r)
+			conds := g.guardingConds(v)
+			okc := len(conds) == 1
+			for _, cv := range conds {
+				e, _ := g.node[cv].(ast.Expr)
+				x, y, op, isCmp := cmpOn(e, func(x ast.Expr) bool { return lt.IsField(x, nameF) })
+				if !(isCmp && x != nil && op == token.EQL && lt.ObjOf(y) == types.Object(nameP)) {
+					okc = false
+				}
+			}
+			c.Check(okc, "lookupTool:filters-by-name-only", lt, r, "the definition is returned under the name comparison and no other condition (%d guarding conditions)", len(conds))
+		}
+		c.Pin("lookupTool returns of a definition", n, 1)
+		// every cached page is visited: the loops are over the whole cache and the whole page
+		rng := 0
+		ast.Inspect(lt.Body, func(x ast.Node) bool {
+			if rs, ok := x.(*ast.RangeStmt); ok {
+				rng++
+				_, isSlice := ast.Unparen(rs.X).(*ast.SliceExpr)
+				c.Check(!isSlice, "lookupTool:whole-range#"+itoa(rng), lt, rs, "ranges over the whole collection, not a sub-slice")
+			}
+			return true
+		})
+		c.Pin("lookupTool range loops", rng, 2)
+	})
+
 	c.Rule("R-C12-4", "header bindings are values, not views: the path recorded for each x-mcp-header annotation is a fresh slice, never an append onto the recursion's shared prefix", func() {
 		cp := c.Fn(pM, "", "collectParamHeaderAnnotations")
 		// the recursion's path prefix: the []string parameter
